@@ -14,7 +14,8 @@ Mirrors `brush-core/src/expansion.rs`, including its present defects:
   `From<ExpansionPiece> for PatternPiece` (`toPattern`), `Pattern::expand` restricted to one directory level
   (`patExpand`), `expand_pathnames_in_field` (`globField`), `full_expand_with_splitting` (`fullExpand`);
 * `brace_expand_if_needed`: alternatives are generated as *text*, joined with a space and the joined text
-  is expanded as one word (`braceJoin`) — so the alternatives are separated again only if IFS holds a space.
+  is expanded as one word (`braceJoin`) — so the alternatives are separated again only if IFS holds a space,
+  and only the first generated word can keep a tilde-prefix (`tildeFix`).
 
 The word is given as the parser's piece list (the parser itself is exercised by the correspondence
 run: the same word goes to brush as text and to this model as pieces).
@@ -382,15 +383,53 @@ def braceProduct : BWord → List Word
 
 def hasBraces (w : BWord) : Bool := w.any fun | .braces _ => true | .piece _ => false
 
-/-- `brace_expand_if_needed`: the generated words joined with an unquoted space (an empty one written `""`),
-re-read as ONE word -/
-def braceJoin (w : BWord) : Word :=
+/-- `brace_expand_if_needed`: the generated words joined with an unquoted space (an empty one written `""`);
+the joined text is then re-read as ONE word (`braceJoin`) -/
+def braceJoinRaw (w : BWord) : Word :=
   if hasBraces w then
     let ws := (braceProduct w).map fun x => if x.isEmpty then [WP.dq []] else x
     match ws with
     | [] => []
     | x :: r => x ++ r.flatMap fun y => WP.plain (.base (.text [' '])) :: y
   else w.filterMap fun | .piece p => some p | .braces _ => none
+
+/-! ### the tilde-prefix rule of the word parser
+
+`brush_parser::word`: a tilde expression is recognised only at the very start of the text handed to the
+parser (`tilde_expr_prefix`), and only if the `~` is directly followed by a `tilde_terminator`
+(`/`, `:`, `;`, `}`) or the end of the text; any other `~` is literal text. Because the brace stage hands the
+parser the *joined* text, only the first generated word can still have its tilde-prefix — and not even that
+one when it is `~` alone (then a space follows). -/
+
+def isTilde : WP → Bool
+  | .plain (.base .tilde) => true
+  | _ => false
+
+/-- a `~` that is ordinary text -/
+def litTilde : WP := .plain (.base (.text ['~']))
+
+def untildeAll (w : Word) : Word := w.map fun p => if isTilde p then litTilde else p
+
+/-- `tilde_terminator` of brush's word grammar -/
+def tildeTermsBrush : List Char := ['/', ':', ';', '}']
+
+/-- what may follow a tilde-prefix in bash (unquoted slash; colon as in bash's default mode) -/
+def tildeTermsBash : List Char := ['/', ':']
+
+def tildeFollowOk (terms : List Char) : Word → Bool
+  | [] => true
+  | .plain (.base (.text (c :: _))) :: _ => terms.contains c
+  | _ => false
+
+/-- a piece list as the parser produces it for the same text: a tilde piece survives only in first position
+and before a terminator; all others are the literal character -/
+def tildeFix (terms : List Char) : Word → Word
+  | [] => []
+  | p :: rest =>
+    (if isTilde p && !tildeFollowOk terms rest then litTilde else p) :: untildeAll rest
+
+/-- the word brush expands: the joined text as its parser reads it -/
+def braceJoin (w : BWord) : Word := tildeFix tildeTermsBrush (braceJoinRaw w)
 
 def fullExpandB (env : Env) (opts : Opts) (names : List Str) (w : BWord) : Option (List Str) :=
   fullExpand env opts names (braceJoin w)
